@@ -430,9 +430,13 @@ def Tok.chars : Tok → List Char
   | .comment s => s.toList
 
 /-- a text with these tokens: every token followed by a blank, a comment by a line break -/
+def Tok.sep : Tok → Char
+  | .comment _ => '\n'
+  | _ => ' '
+
 def unlex : List Tok → List Char
   | [] => []
-  | t :: ts => t.chars ++ (match t with | .comment _ => '\n' | _ => ' ') :: unlex ts
+  | t :: ts => t.chars ++ t.sep :: unlex ts
 
 /-! ## 3. the user-level declaration and `Mesh.assemble` -/
 
